@@ -38,6 +38,9 @@ import vyxal.transpile  # noqa: E402
 from vyxal.context import Context  # noqa: E402
 from vyxal.LazyList import LazyList  # noqa: E402
 
+warnings.simplefilter("ignore")  # again: sympy installs its own filter for SymPyDeprecationWarning at import
+warnings.filterwarnings("ignore", category=Warning)
+
 VYXAL_DIR = os.path.dirname(os.path.abspath(vyxal.main.__file__))
 assert os.path.abspath(VYXAL_DIR).startswith(os.path.abspath(REPO)), (
     "vyxal imported from %s, not from %s" % (VYXAL_DIR, REPO)
